@@ -77,6 +77,36 @@ template<unsigned N> static void classes ()
         snprintf (what, 200, "complex Hermitian %ux%u, %s, scale %g: E E^dagger = 1 within 1e-8 (error %.3g)", N, N, class_name[cls], scale, ortho); expect_true (what, ortho <= 1e-8); }
     } }
 }
+
+// decoupled index sets and single off-diagonal pairs: every pair (p,q) must be visited by the sweeps and by the
+// convergence test, wherever it sits
+template<unsigned N> static void check_pair_matrix (const char* tag, const double re[N][N], const double im[N][N])
+{
+  for (double scale : { 1.0, std::ldexp (1.0, -498), std::ldexp (1.0, 498) }) { char what[240];
+    { Matrix<N,N,double> A; for (unsigned i=0; i<N; i++) for (unsigned j=0; j<N; j++) A[i][j] = re[i][j] * scale;
+      double ortho, err = jacobi_error_real (A, ortho);
+      snprintf (what, 240, "real symmetric %ux%u, %s, scale %g: E A E^T = diag(lambda), E E^T = 1 within 1e-12 (errors %.3g, %.3g)", N, N, tag, scale, err, ortho);
+      expect_true (what, err <= 1e-12 && ortho <= 1e-12); }
+    { Matrix<N,N,cd> A; for (unsigned i=0; i<N; i++) for (unsigned j=0; j<N; j++) A[i][j] = cd (re[i][j], im[i][j]) * scale;
+      double ortho, err = jacobi_error_complex (A, ortho);
+      snprintf (what, 240, "complex Hermitian %ux%u, %s, scale %g: E A E^dagger = diag(lambda), E E^dagger = 1 within 1e-8 (errors %.3g, %.3g)", N, N, tag, scale, err, ortho);
+      expect_true (what, err <= 1e-8 && ortho <= 1e-8); } }
+}
+template<unsigned N> static void pairs_and_decoupled ()
+{
+  char tag[120]; double re[N][N], im[N][N];
+  for (unsigned p=0; p<N; p++) for (unsigned q=p+1; q<N; q++) {
+    for (unsigned i=0; i<N; i++) for (unsigned j=0; j<N; j++) { re[i][j] = (i == j) ? double (i + 1) : 0.0; im[i][j] = 0.0; }
+    re[p][q] = re[q][p] = 0.5; im[p][q] = 0.25; im[q][p] = -0.25;
+    snprintf (tag, 120, "diag(1..n) with the single off-diagonal pair (%u,%u)", p, q); check_pair_matrix<N> (tag, re, im); }
+  // a decoupled index set (distinct diagonal entries, zero coupling) beside a dense small-integer block
+  for (unsigned mask : { 0x1u, 0x3u, 0x2u, 0x5u, 1u | (1u << (N-1)), 1u << (N/2), 0x6u }) {
+    if (mask >= (1u << N) || N - __builtin_popcount (mask) < 2) continue;
+    for (unsigned i=0; i<N; i++) for (unsigned j=i; j<N; j++) { bool di = mask >> i & 1, dj = mask >> j & 1; double x = rnd (), y = rnd ();
+      if (di || dj) { x = (i == j) ? 5.0 + i : 0.0; y = 0; } else { x = double (int (4 * x)) + (i == j ? 2.0 : 0.0); y = (i == j) ? 0.0 : double (int (3 * y)); }
+      re[i][j] = re[j][i] = x; im[i][j] = y; im[j][i] = -y; }
+    snprintf (tag, 120, "index set 0x%x decoupled from a dense small-integer block", mask); check_pair_matrix<N> (tag, re, im); }
+}
 #endif
 
 int main (int argc, char** argv)
@@ -157,6 +187,7 @@ int main (int argc, char** argv)
         expect (std::string (what) + ": diagonalises", D.j01, cd (0.0)); expect (std::string (what) + ": larger eigenvalue first", D.j00, cd (v[0] + p)); } } }, 1);
   // the Jacobi solver over structure classes, dimensions 2..8 and scales (accuracy relative to the norm of A)
   fn ("jacobi_classes_plain", [] { lcg_state = 12345; classes<2> (); classes<3> (); classes<4> (); classes<5> (); classes<6> (); classes<7> (); classes<8> (); }, 1);
+  fn ("jacobi_pairs_plain", [] { lcg_state = 777; pairs_and_decoupled<2> (); pairs_and_decoupled<3> (); pairs_and_decoupled<4> (); pairs_and_decoupled<5> (); pairs_and_decoupled<6> (); pairs_and_decoupled<7> (); pairs_and_decoupled<8> (); }, 1);
 #endif
   symx::finish ();
   return 0;
